@@ -12,7 +12,7 @@ from ..schedcase import Model
 PID = "C12"
 LEVEL = "exploration"
 RULE = (
-    "cases = flag-free, debug-free call-only DAG programs (3-8 sites, reused functions, 0-2 setup sites optionally "
+    "cases = flag-free, debug-free call-only DAG programs (3-8 sites, reused functions, indexed uses of tuple results, 0-2 setup sites optionally "
     "run beforehand, extra group tags, a tag equal to another node's id) x (R, X, T) each None / empty / a subset, X "
     "inside the part selected by R, R among true roots or (error class) containing a non-root, every element given "
     "through an alias form drawn among node reference, decorated-function reference, id, unique tag, group tag, "
@@ -260,7 +260,8 @@ def run_case(case: Dict[str, Any]) -> CaseResult:
 def cases(draw: Any, tier: str) -> Dict[str, Any]:
     exhaustive = draw(st.integers(0, 11)) == 0
     P = draw(gen.flat_prog(min_sites=3, max_sites=4 if exhaustive else 8, max_deps=3, resources=gen.RES, reuse=not exhaustive,
-                           n_setup=draw(st.integers(0, 2)), mark_roots=False, prio_range=(-1, 2)))
+                           n_setup=draw(st.integers(0, 2)), mark_roots=False, prio_range=(-1, 2),
+                           index_rate=0.3, dep_kinds=("pos", "kw")))
     sites = [s["site"] for s in P["body"]]
     case: Dict[str, Any] = {"prog": P, "mc": draw(st.integers(1, 3)), "pre_setup": draw(st.booleans())}
     if exhaustive:
